@@ -189,6 +189,7 @@ def make_pool(rng: PlanRng):
         pool[f"x{k}a"] = sig(rng.uniform(0.5, 3.0, k))
         pool[f"x{k}b"] = sig(rng.uniform(0.5, 3.0, k))
         pool[f"U{k}"] = sig(rng.uniform(0.05, 0.95, (5, k)))   # fractions of the bound range
+        pool[f"Eps{k}"] = sig(rng.uniform(0.01, 1.0, (n_rec, k)))   # a per-call variance model
         if k >= 2:
             mix = rng.uniform(1.0, 6.0, k)
             mix[rng.integers(0, k - 1)] = np.inf           # finite and infinite mixed: rejected
@@ -529,6 +530,8 @@ def run_query(est, q, pool, n_src):
     if name == "fit_underdetermined":
         return est.fit_underdetermined(g("B"), underdetermined_opt=a.get("opt"))
     if name == "minimize_variance":
+        if a.get("Epsilon"):
+            return est.minimize_variance(g("B"), Epsilon=g("Epsilon"))
         return est.minimize_variance(g("B"))
     if name == "fit_adaptive":
         return est.fit_adaptive(g("B"), solver="CLARABEL",
@@ -639,7 +642,8 @@ def random_query(rng: PlanRng, meta, solver_ok=True, slow_ok=True):
         lambda: {"q": "fit", "a": {"B": B}},
         lambda: {"q": "fit_underdetermined", "a": {"B": "Bin?", "opt": rng.choice([None, "min", "max",
                                                                                     "var"])}},
-        lambda: {"q": "minimize_variance", "a": {"B": B}},
+        lambda: {"q": "minimize_variance", "a": ({"B": B, "Epsilon": "Eps?"} if rng.coin(0.35)
+                                                  else {"B": B})},
         lambda: {"q": "fit_adaptive", "a": {"B": B, "objective": rng.choice(["unity", "max"])}},
         lambda: {"q": "fit_decomposition", "a": {"B": B, "n_layers": rng.integers(1, 2),
                                                   "seed": rng.integers(0, 3)}},
